@@ -251,6 +251,43 @@ theorem read_refines (s : State) (h : Inv s) (layer : Nat) (t : Option Name) (c 
     read s layer t c = (abs s).read layer t c :=
   read_refines' h layer t c
 
+/-- every item a successful read returns is the stored data of that element in that layer, and a
+calibrated read names that element's own calibration -/
+theorem read_items (s : State) (h : Inv s) (layer : Nat) (t : Option Name) (c : Bool) (out : ReadOut)
+    (hr : read s layer t c = some out) :
+    ∀ item ∈ out, ∃ ds cal, entry s item.1 = some (ds, cal) ∧ ds[layer]? = some item.2.1 ∧
+      item.2.2 = (if c then some cal else none) := by
+  rw [read_refines s h] at hr
+  unfold Spec.read at hr
+  split at hr
+  · cases t with
+    | some n =>
+      simp only at hr
+      cases hg : get? (abs s).map n with
+      | none => rw [hg] at hr; simp at hr
+      | some e =>
+        rw [hg] at hr
+        simp only at hr
+        cases hd : e.1[layer]? with
+        | none => rw [hd] at hr; simp at hr
+        | some d =>
+          rw [hd] at hr
+          simp only [Option.some.injEq] at hr
+          subst hr
+          intro item hi
+          simp only [List.mem_singleton] at hi
+          subst hi
+          exact ⟨e.1, e.2, hg, hd, rfl⟩
+    | none =>
+      simp only at hr
+      intro item hi
+      obtain ⟨e, he, h1, h2, h3⟩ := readAll_items layer c _ out hr item hi
+      refine ⟨e.2.1, e.2.2, ?_, h1, h3⟩
+      unfold entry
+      rw [h2]
+      exact get?_of_mem_nodup (by rw [abs_map_keys]; exact h.nodup) he
+  · simp at hr
+
 /-- a successful read leaves the state as it is -/
 theorem read_keeps_state (s s' : State) (layer : Nat) (t : Option Name) (c : Bool)
     (h : step s (.get layer t c) = some s') : s' = s := by
@@ -318,6 +355,8 @@ example : (rename exSRR [("A", "B"), ("B", "C"), ("C", "A")]).map (fun s => entr
     = some (some ([5, 11], 0)) := by decide
 example : "A" ∈ exState.elements ∧ "B" ∈ exState.elements ∧ "A" ≠ "B" ∧ "D" ∉ exState.elements := by decide
 example : (roundTrip exSRR).isSome = true := by decide
+example : read exState 0 none true = some [("A", 1, some 2), ("B", 3, some 0), ("C", 5, some 1)] ∧
+    read exSRR 1 (some "B") false = some [("B", 9, none)] := by decide
 example : (add exState "D" [9] 4).isSome = true ∧ (remove exState ["B", "A"]).isSome = true := by decide
 /-- the success conditions are real: duplicates, absent names and collisions are rejected -/
 example : add exState "A" [9] 4 = none ∧ remove exState ["D"] = none ∧ remove exState ["A", "A"] = none ∧
